@@ -45,8 +45,8 @@ variable {P : Params} {X : SParams}
 structure SSim (P : Params) (X : SParams) (s₁ s₂ : St) : Prop where
   stack : s₂.stack = s₁.stack.map P.γ ++ X.tail
   stackDG : ∀ b ∈ s₁.stack, P.DG b
-  tl : X.tail = [] ∨ s₁.stack.getLast? = some P.bx
-  bxs : P.bx ∈ s₁.stack → P.hb
+  tl : X.tail = [] ∨ (P.sp = true ∧ s₁.stack.getLast? = some P.bx)
+  bxs : P.sp = true → P.bx ∈ s₁.stack → P.hb
   ss : s₁.stack.Pairwise (fun x y => P.T x → P.T y)
   ri : ∀ id j, id ∉ X.F → lookupIn s₁.rowIds id = some j → lookupIn s₂.rowIds id = some (P.γ j)
   riDG : ∀ p ∈ s₁.rowIds, P.DG p.2
@@ -131,7 +131,8 @@ theorem mostRecentIn_mem' {gs : Array Grp} : ∀ {st : List Nat} {x : Nat}, most
         exact ⟨b', by simp [hb'], r⟩
 
 theorem mostRecentIn_sim {s₁ s₂ : St} (h : ASim P s₁ s₂) (ok : P.Ok) (tail : List Nat) :
-    ∀ st : List Nat, (∀ b ∈ st, P.DG b) → (tail = [] ∨ P.bx ∈ st) → (P.bx ∈ st → P.hb) →
+    ∀ st : List Nat, (∀ b ∈ st, P.DG b) → (tail = [] ∨ (P.sp = true ∧ P.bx ∈ st)) →
+      (P.sp = true → P.bx ∈ st → P.hb) →
       mostRecentIn s₂.groups (st.map P.γ ++ tail) = (mostRecentIn s₁.groups st).map P.γ ∧
       ∀ j, mostRecentIn s₁.groups st = some j → P.DG j := by
   intro st
@@ -140,12 +141,23 @@ theorem mostRecentIn_sim {s₁ s₂ : St} (h : ASim P s₁ s₂) (ok : P.Ok) (ta
     intro _ htl _
     rcases htl with htl | htl
     · subst htl; exact ⟨rfl, fun j hj => by cases hj⟩
-    · cases htl
+    · cases htl.2
   | cons b bs ih =>
     intro hdg htl hbx
     have hdb : P.DG b := hdg b (by simp)
     simp only [List.map_cons, List.cons_append]
     unfold mostRecentIn
+    have rec_ : (P.sp = true → b ≠ P.bx) →
+        mostRecentIn s₂.groups (bs.map P.γ ++ tail) = (mostRecentIn s₁.groups bs).map P.γ ∧
+        ∀ j, mostRecentIn s₁.groups bs = some j → P.DG j := by
+      intro hne
+      refine ih (fun x hx => hdg x (by simp [hx])) ?_ (fun hsp hm => hbx hsp (by simp [hm]))
+      rcases htl with htl | ⟨hsp, htl⟩
+      · exact .inl htl
+      · simp only [List.mem_cons] at htl
+        rcases htl with htl | htl
+        · exact absurd htl.symm (hne hsp)
+        · exact .inr ⟨hsp, htl⟩
     cases hg : s₁.groups[b]? with
     | none =>
       have hge : s₁.groups.size ≤ b := by
@@ -160,79 +172,74 @@ theorem mostRecentIn_sim {s₁ s₂ : St} (h : ASim P s₁ s₂) (ok : P.Ok) (ta
         simp
       rw [hb2]
       simp only []
-      have hne : b ≠ P.bx := by have := h.bxlt; omega
-      refine ih (fun x hx => hdg x (by simp [hx])) ?_ (fun hm => hbx (by simp [hm]))
-      rcases htl with htl | htl
-      · exact .inl htl
-      · simp only [List.mem_cons] at htl
-        rcases htl with htl | htl
-        · exact absurd htl.symm hne
-        · exact .inr htl
+      exact rec_ (fun _ => by have := h.bxlt; omega)
     | some g =>
       rw [h.groups b g hdb hg]
       have hcl := h.closed b g hdb hg
-      have rec_ : b ≠ P.bx → mostRecentIn s₂.groups (bs.map P.γ ++ tail) = (mostRecentIn s₁.groups bs).map P.γ ∧
-          ∀ j, mostRecentIn s₁.groups bs = some j → P.DG j := by
-        intro hne
-        refine ih (fun x hx => hdg x (by simp [hx])) ?_ (fun hm => hbx (by simp [hm]))
-        rcases htl with htl | htl
-        · exact .inl htl
-        · simp only [List.mem_cons] at htl
-          rcases htl with htl | htl
-          · exact absurd htl hne.symm
-          · exact .inr htl
+      have normal : ∀ cs, g = .block cs → (P.sp = true → b ≠ P.bx) →
+          (match (cs.map P.γ).getLast? with
+            | some c => some c
+            | none => mostRecentIn s₂.groups (bs.map P.γ ++ tail)) =
+          (match cs.getLast? with
+            | some c => some c
+            | none => mostRecentIn s₁.groups bs).map P.γ ∧
+          ∀ j, (match cs.getLast? with
+            | some c => some c
+            | none => mostRecentIn s₁.groups bs) = some j → P.DG j := by
+        intro cs hgc hne
+        subst hgc
+        simp only [getLast?_map]
+        cases hl : cs.getLast? with
+        | none =>
+          simp only [Option.map_none]
+          exact rec_ hne
+        | some x =>
+          simp only [Option.map_some]
+          refine ⟨trivial, fun j hj => ?_⟩
+          injection hj with hj
+          subst hj
+          exact hcl.2 x (by simp only [grefs]; exact mem_of_getLast? hl)
       cases g with
       | row a1 a2 =>
         simp only [mapGrpAt_row]
-        exact rec_ (fun e => by
+        exact rec_ (fun hsp e => by
           subst e
-          obtain ⟨c, cs, e'⟩ := h.bne (hbx (by simp))
+          obtain ⟨c, cs, e'⟩ := h.bne (hbx hsp (by simp))
           rw [hg] at e'; cases e')
       | noop a1 a2 =>
         simp only [mapGrpAt_noop]
-        exact rec_ (fun e => by
+        exact rec_ (fun hsp e => by
           subst e
-          obtain ⟨c, cs, e'⟩ := h.bne (hbx (by simp))
+          obtain ⟨c, cs, e'⟩ := h.bne (hbx hsp (by simp))
           rw [hg] at e'; cases e')
       | block cs =>
-        by_cases hbb : b = P.bx
-        · subst hbb
-          obtain ⟨c, cs', e'⟩ := h.bne (hbx (by simp))
-          rw [hg] at e'
-          injection e' with e'; injection e' with e'
-          subst e'
-          have e1 : ∃ l, mapGrpAt P P.bx (.block (c :: cs')) = .block l ∧ l.getLast? = ((c :: cs').getLast?).map P.γ := by
-            cases hsp : P.sp with
-            | true =>
-              refine ⟨_, mapGrpAt_block_bx P hsp _, ?_⟩
+        cases hsp : P.sp with
+        | false =>
+          rw [mapGrpAt_block_ne P (.inr hsp)]
+          exact normal cs rfl (fun h' => by rw [hsp] at h'; cases h')
+        | true =>
+          by_cases hbb : b = P.bx
+          · subst hbb
+            obtain ⟨c, cs', e'⟩ := h.bne (hbx hsp (by simp))
+            rw [hg] at e'
+            injection e' with e'; injection e' with e'
+            subst e'
+            rw [mapGrpAt_block_bx P hsp]
+            simp only []
+            have egl : (P.gx :: List.map P.γ (c :: cs')).getLast? = ((c :: cs').getLast?).map P.γ := by
               rw [← getLast?_map]
               simp [List.getLast?_cons_cons]
-            | false =>
-              exact ⟨_, mapGrpAt_block_ne P (.inr hsp) _, getLast?_map _ _⟩
-          obtain ⟨l, el, egl⟩ := e1
-          rw [el]
-          simp only []
-          rw [egl]
-          cases hl : (c :: cs').getLast? with
-          | none => simp at hl
-          | some x =>
-            simp only [Option.map_some]
-            refine ⟨trivial, fun j hj => ?_⟩
-            injection hj with hj
-            subst hj
-            exact hcl.2 x (by simp only [grefs]; exact mem_of_getLast? hl)
-        · rw [mapGrpAt_block_ne P (.inl hbb)]
-          simp only [getLast?_map]
-          cases hl : cs.getLast? with
-          | none =>
-            simp only [Option.map_none]
-            exact rec_ hbb
-          | some x =>
-            simp only [Option.map_some]
-            refine ⟨trivial, fun j hj => ?_⟩
-            injection hj with hj
-            subst hj
-            exact hcl.2 x (by simp only [grefs]; exact mem_of_getLast? hl)
+            rw [egl]
+            cases hl : (c :: cs').getLast? with
+            | none => simp at hl
+            | some x =>
+              simp only [Option.map_some]
+              refine ⟨trivial, fun j hj => ?_⟩
+              injection hj with hj
+              subst hj
+              exact hcl.2 x (by simp only [grefs]; exact mem_of_getLast? hl)
+          · rw [mapGrpAt_block_ne P (.inl hbb)]
+            exact normal cs rfl (fun _ => hbb)
 
 theorem mostRecent_sim (ok : P.Ok) {s₁ s₂ : St} (h : Sim P X s₁ s₂) :
     mostRecentIn s₂.groups s₂.stack = (mostRecentIn s₁.groups s₁.stack).map P.γ ∧
@@ -241,7 +248,7 @@ theorem mostRecent_sim (ok : P.Ok) {s₁ s₂ : St} (h : Sim P X s₁ s₂) :
   refine mostRecentIn_sim h.1 ok X.tail s₁.stack h.2.stackDG ?_ h.2.bxs
   rcases h.2.tl with h' | h'
   · exact .inl h'
-  · exact .inr (mem_of_getLast? h')
+  · exact .inr ⟨h'.1, mem_of_getLast? h'.2⟩
 
 /-- the source group of an edge -/
 theorem groupOfEdge_rel (ok : P.Ok) {s₁ s₂ : St} (h : Sim P X s₁ s₂) (e : Edge)
